@@ -47,6 +47,8 @@ package pogreb
 //@   ensures kept: forall i int :: 0 <= i && i < 32767 && old(theDB().datalog.segments[i]) != nil ==> theDB().datalog.segments[i] == old(theDB().datalog.segments[i])
 // Count: one key less exactly when a slot was removed (b is the bucket that held it; at the end of the chain b is empty)
 //@   at return: assert [C01] count-removed: err == nil && b.file != nil ==> idx.numKeys == old(idx.numKeys) - 1
+// ... and the bucket on disk is the bucket without that slot (later slots moved up: bucket.del)
+//@   at return: assert [C01] removed-on-disk: err == nil && b.file != nil ==> forall p int :: 0 <= p && p < 31 ==> slotEncoded(fData[fidOf[b.file.File]], int(b.offset)+16*p, b.slots[p])
 //@   at return: assert [C01] count-missing: err == nil && b.file == nil ==> idx.numKeys == old(idx.numKeys)
 //@   at return: assert [C01] miss-only-at-chain-end: err == nil ==> it.off == 0 || old(keyOfSlotIs(theDB().datalog, sl, theKey()))
 //@   at call matchKey@1: cases which-file: b.file == idx.main || b.file == idx.overflow
